@@ -455,7 +455,7 @@ func mergeEvidence(id string, cfg propCfg, tier string, seed int64, outDir strin
 	classes, excluded, known, skipped := map[string]int64{}, map[string]int64{}, map[string]int64{}, map[string]int64{}
 	extra := map[string]interface{}{}
 	sums := map[string]int64{}
-	var samples []interface{}
+	samples := []interface{}{}
 	rule := ""
 	assumptions := []string{}
 	seenAss := map[string]bool{}
